@@ -431,9 +431,22 @@ class SecopClient(ProxyClient):
                 self.pending.put(entry)
             else:
                 self.active_requests[key] = entry
-                line = encode_msg_frame(*request)
+                try:
+                    line = encode_msg_frame(*request)
+                except Exception as e:
+                    # data which can not be encoded: an error for this caller only
+                    self.active_requests.pop(key, None)
+                    entry[2] = (ERRORPREFIX + str(request[0]), request[1],
+                                ['BadValue', f'can not encode request ({e!r})', {}])
+                    entry[1].set()
+                    continue
                 self.log.debug('TX: %r', line)
-                self.io.send(line)
+                try:
+                    self.io.send(line)
+                except Exception as e:
+                    # the connection is unusable: do not just end this thread, but release all callers
+                    self.log.info('can not send (%r)', e)
+                    break
         self._txthread = None
         self.disconnect(False)
 
